@@ -94,7 +94,7 @@ def structures(tier, seed):
                 {"XY": ["a_lc"], "Z": ["dz_c"]}, {"XYZ": ["vol"], "X": ["dx_c"]}):
         out.append({"part": "get", "sid": "get3;" + reg_sid({tuple(k): v for k, v in reg.items()}), "reg": reg, "arrays": ["ccc", "lcc"],
                     "requests": [["X", "Y", "Z"], ["Y", "X", "Z"]]})
-    for op in ("integrate", "integrate-order", "average", "derivative", "metric_weighted-diff", "metric_weighted-interp-multi", "average-constant", "average-constant-bounded"):
+    for op in ("integrate", "integrate-order", "average", "derivative", "metric_weighted-diff", "metric_weighted-interp-multi", "metric_weighted-mapping-order", "average-constant", "average-constant-bounded"):
         out.append({"part": "op", "op": op, "sid": f"op;{op}"})
     if tier == "thorough":
         out.append({"part": "lean", "sid": "lean;finite-sum-facts", "clause": "sum_const_mul,sum_pos_of_pos,weighted_mean_const"})
@@ -452,6 +452,31 @@ def run_op(s):
                 rng = z3.And(*[z3.And(q[d] >= 0, q[d] < zint(dims[d])) for d in q])
                 oblige("metric_weighted-multi:dims", tuple(out.dims) == ("t", "y_l", "x_l") and tuple(step.dims) == tuple(out.dims), detail=str(out.dims))
                 oblige("metric_weighted-multi:per-axis-weights-one-axis-after-the-other", z3.Implies(rng, out.elem(q) == step.elem(q)))
+            elif op == "metric_weighted-mapping-order":
+                # a per-axis mapping is keyed by axis NAME: the order of its keys is irrelevant, and it may name axes the call does not touch
+                q = {d: z3.Int(f"q_{d}") for d in ("t", "y_l", "x_l")}
+                rng = z3.And(*[z3.And(q[d] >= 0, q[d] < zint(dims[d])) for d in q])
+                step = g.interp(g.interp(c, "Y", to="left", boundary="extend", metric_weighted=("Y",)), "X", to="left", boundary="extend", metric_weighted=("X",))
+                for tag, call in (("interp[Y,X]-mapping{X,Y}", lambda: g.interp(c, ["Y", "X"], to="left", boundary="extend", metric_weighted={"X": ("X",), "Y": ("Y",)})),
+                                  ("interp[Y,X]-mapping{Y,X}", lambda: g.interp(c, ["Y", "X"], to="left", boundary="extend", metric_weighted={"Y": ("Y",), "X": ("X",)}))):
+                    out = call()
+                    oblige(f"mapping-order:{tag}:dims", set(out.dims) == {"t", "y_l", "x_l"}, detail=str(out.dims))
+                    if set(out.dims) == {"t", "y_l", "x_l"}:
+                        oblige(f"mapping-order:{tag}:each-axis-weighted-by-its-own-entry", z3.Implies(rng, out.elem(q) == step.elem(q)))
+                qy = {d: z3.Int(f"q_{d}") for d in ("t", "y_l", "x_c")}
+                rngy = z3.And(*[z3.And(qy[d] >= 0, qy[d] < zint(dims[d])) for d in qy])
+                one = g.interp(c, "Y", to="left", boundary="extend", metric_weighted=("Y",))
+                for tag, call in (("interp[Y]-mapping{X,Y}", lambda: g.interp(c, "Y", to="left", boundary="extend", metric_weighted={"X": ("X",), "Y": ("Y",)})),
+                                  ("cumsum[Y]-mapping{X,Y}", None)):
+                    if call is None:
+                        out = g.cumsum(c, "Y", to="left", boundary="fill", fill_value=0.0, metric_weighted={"X": ("X",), "Y": ("Y",)})
+                        ref = g.cumsum(c, "Y", to="left", boundary="fill", fill_value=0.0, metric_weighted=("Y",))
+                    else:
+                        out, ref = call(), one
+                    oblige(f"mapping-order:{tag}:dims", tuple(out.dims) == tuple(ref.dims), detail=f"{out.dims} {ref.dims}")
+                    if tuple(out.dims) == tuple(ref.dims):
+                        same = z3.simplify(out.elem(qy)).eq(z3.simplify(ref.elem(qy)))
+                        oblige(f"mapping-order:{tag}:weighted-by-the-entry-of-the-operated-axis", same or symx.ctx().check_valid(z3.Implies(rngy, out.elem(qy) == ref.elem(qy)))[0] == "proved")
             covers["returned"] = 1
         except (symx.EngineUnsupported, symx.InfeasiblePath, symx.PathAbort):
             raise
@@ -585,6 +610,16 @@ def replay(ob):
             ref = g.diff(c * ds.a_cc, "X", to="left", boundary="extend") / ds.a_lc
             if not np.allclose(d.values, ref.transpose(*d.dims).values):
                 bad.append("metric_weighted diff != diff(data*a_cc)/a_lc")
+        elif op == "metric_weighted-mapping-order":
+            s1 = g.interp(c * ds.dy_c, "Y", to="left", boundary="extend") / ds.dy_l
+            ref = g.interp(s1 * ds.dx_c, "X", to="left", boundary="extend") / ds.dx_l
+            for mw in ({"X": ("X",), "Y": ("Y",)}, {"Y": ("Y",), "X": ("X",)}):
+                d = g.interp(c, ["Y", "X"], to="left", boundary="extend", metric_weighted=mw)
+                if not np.allclose(d.values, ref.transpose(*d.dims).values):
+                    bad.append(f"interp over [Y, X] with metric_weighted={mw} does not weight every axis by its own entry")
+            d = g.interp(c, "Y", to="left", boundary="extend", metric_weighted={"X": ("X",), "Y": ("Y",)})
+            if not np.allclose(d.values, s1.transpose(*d.dims).values):
+                bad.append("interp along Y with a mapping naming X first is not weighted by the Y entry")
         elif op == "metric_weighted-interp-multi":
             d = g.interp(c, ["X", "Y"], to="left", boundary="extend", metric_weighted={"X": ("X",), "Y": ("Y",)})
             s1 = g.interp(c * ds.dx_c, "X", to="left", boundary="extend") / ds.dx_l
